@@ -111,6 +111,23 @@ def finish (ok : Bool) (undo : List Ev) (s : St) : Run :=
   | true => ⟨[], s, true⟩
   | false => run undo s
 
+/-- A closure that TOLERATES failing queries (`let _ = t.exec_mut(q);` instead of `t.exec_mut(q)?`): each
+query's storage events run until its first failing call (the `?` inside the query unwinds to the closure,
+leaving that query's brackets open), the closure then goes on with the next query and returns `Ok`. -/
+def runTol : List (List Ev) → St → St
+  | [], s => s
+  | q :: qs, s => runTol qs (run q s).final
+
+/-- `transaction_mut` (with the fix) around a tolerant closure that returns `Ok`: `commit_outermost` on the
+Ok path as well. -/
+def txnFixedTol (queries : List (List Ev)) (s : St) : St :=
+  (runTol queries s.begin).commitOutermost (s.depth + 1)
+
+/-- the variant "plain `Storage::commit(id)` on the Ok path, `commit_outermost` only on the Err path"
+(seeded change C32/s1) -/
+def txnPlainCommitTol (queries : List (List Ev)) (s : St) : St :=
+  (runTol queries s.begin).commit
+
 /-- `DbImpl::transaction_mut` with the proposed fix: one storage transaction around the closure and
 the commit/rollback of the undo stack. `closure` = storage events of the closure, `undo` = storage
 events of `DbImpl::rollback`, `closureOk` = the closure's own result. -/
